@@ -100,9 +100,17 @@ def setup_env(srv, rng):
             hashing_algorithm=E.HashingAlgorithm.SHA_512, cryptographic_algorithm=E.CryptographicAlgorithm.HMAC_SHA512,
             padding_method=E.PaddingMethod.PSS)),
         mac_signature=b'\x01\x02\x03\x04', iv_counter_nonce=b'\x05' * 8, encoding_option=E.EncodingOption.NO_ENCODING)
-    r = srv.send([op_register('sym', secret_sym(bytes(range(24)), E.CryptographicAlgorithm.AES, 192, E.KeyFormatType.RAW, kwd),
-                              sym_attrs(E.CryptographicAlgorithm.AES, 192, [M.ENCRYPT], names=['c19-wrapped']))], ('alice', None))
+    import copy
+    regreq = rig.encode_request(rig.build_request((1, 2), [op_register(
+        'sym', secret_sym(bytes(range(24)), E.CryptographicAlgorithm.AES, 192, E.KeyFormatType.RAW, copy.deepcopy(kwd)),
+        sym_attrs(E.CryptographicAlgorithm.AES, 192, [M.ENCRYPT], names=['c19-wrapped']))]), (1, 2))
+    r = srv.send_bytes(regreq, ('alice', None))
     env['wrapped'] = store.Obj(r.uid(), 'sym', 'alice', 'default', 'pre', []) if r.error is None and r.ok() else None
+    if env['wrapped'] is not None:
+        # the wrapping data exactly as a (foreign) server would send it: taken from the Register request's own encoding
+        for _, it in T.walk(T.decode(regreq, strict=False)):
+            if it[0] == 0x420046:
+                env['wrapped'].extra['kwd_tree'] = it
     env['priv'] = store.register(srv, 'priv', 'alice', rng, state='active', masks=[M.SIGN], names=['c19-priv'])
     return env
 
@@ -310,6 +318,15 @@ def run_case(ctx, case):
                         sock.transform = trunc
                     else:
                         sock.transform = None
+                    if name == 'get_wrapped_key' and sock.transform is None and env['wrapped'].extra.get('kwd_tree'):
+                        # deliver the key wrapping data as sent by the registering client, whatever this server stored
+                        def inject(o, tree_=env['wrapped'].extra['kwd_tree']):
+                            t = T.decode(o, strict=False)
+                            for pth, it in T.walk(t):
+                                if it[0] == 0x420046:
+                                    return T.encode(T.replace_at(t, pth, tree_))
+                            return o
+                        sock.transform = inject
                     nwire = len(sock.wire)
                     sock.out = b''
                     raised = None
